@@ -579,6 +579,8 @@ def sig_facts(ctx):
                 seq.append(("poll", None, None, e))
             elif O.is_call(e, r"::dispatch_events$|EventLoop::<.*>::dispatch::<"):
                 seq.append(("wait", None, None, e))
+            elif e.kind == "callback" or (e.kind == "call" and e.callee.startswith("closure:")):
+                seq.append(("cb", None, None, e))
         return seq
     # waker
     for nm in ("wake", "wake_by_ref"):
@@ -591,24 +593,28 @@ def sig_facts(ctx):
     facts["stop"] = [(k_, fld, v) for k_, fld, v, _ in aops(paths[0])]
     f, paths, cfg = O.run_fn(ctx, r"^fn loop_logic::<impl at [^>]*>::wakeup\(_1: &LoopSignal")
     facts["wakeup"] = [(k_, fld, v) for k_, fld, v, _ in aops(paths[0])]
-    # block_on: initialisation and one iteration in its two variants (woken / not woken)
+    # block_on: initialisation and one iteration in its two variants (woken / not woken); an iteration
+    # ends with the per-iteration closure; the initialisation is the leading run of plain stores
     f, paths, cfg = O.run_fn(ctx, r"::block_on\(_1: &mut EventLoop", unroll=1)
     woken = notwoken = init = None
     for p in paths:
         seq = aops(p)
         if not p.status.startswith("cut"):
             continue
-        polls = [x for x in seq if x[0] == "poll"]
-        waits = [i for i, x in enumerate(seq) if x[0] == "wait"]
-        if len(waits) < 2:
+        ninit = 0
+        while ninit < len(seq) and seq[ninit][0] == "store":
+            ninit += 1
+        its, cur = [], []
+        for x in seq[ninit:]:
+            cur.append(x)
+            if x[0] == "cb":
+                its.append(cur)
+                cur = []
+        if len(its) < 2:
             continue
-        # first iteration = up to and including the first wait; ops before the first stop-load are init
-        first_load = [i for i, x in enumerate(seq) if x[0] == "load" and x[1] == "stop"][0]
-        init = [(k_, fld, v) for k_, fld, v, _ in seq[:first_load]]
-        it1 = seq[first_load:waits[0] + 1]
-        it2 = seq[waits[0] + 1:waits[1] + 1]
-        for it in (it1, it2):
-            kinds = [(k_, fld, v) for k_, fld, v, _ in it]
+        init = [(k_, fld, v) for k_, fld, v, _ in seq[:ninit]]
+        for it in its:
+            kinds = [(k_, fld, v) for k_, fld, v, _ in it if k_ != "cb"]
             if any(k_ == "poll" for k_, _, _ in kinds):
                 woken = woken or kinds
             else:
@@ -624,7 +630,7 @@ def sig_facts(ctx):
             first_load = [i for i, x in enumerate(seq) if x[0] == "load"][0]
             waits = [i for i, x in enumerate(seq) if x[0] == "wait"]
             facts["run_init"] = [(k_, fld, v) for k_, fld, v, _ in seq[:first_load]]
-            facts["run_iter"] = [(k_, fld, v) for k_, fld, v, _ in seq[first_load:waits[0] + 1]]
+            facts["run_iter"] = [(k_, fld, v) for k_, fld, v, _ in seq[first_load:waits[0] + 1] if k_ != "cb"]
     if "run_iter" not in facts:
         raise Unsupported("run iteration shape not found")
     return facts
@@ -662,38 +668,50 @@ def p_sig(ctx, tier):
     iters = 3 if tier == "quick" else 4
     # ---------------- block_on
     woken, notw = facts["bo_woken"], facts["bo_notwoken"]
-    # the common prefix up to and including the read of future_ready
     rd = [i for i, (k_, fld, v) in enumerate(woken) if fld == "fr" and k_ in ("swap", "load")]
     if not rd:
         raise Unsupported("block_on does not read future_ready")
     rdi = rd[0]
-    if woken[:rdi + 1] != notw[:rdi + 1]:
-        raise Unsupported("block_on iteration prefixes differ")
-    lops = _sigops(facts["bo_init"])
-    marks = []
-    for it in range(iters):
-        base = len(lops)
-        pre = _sigops(woken[:rdi + 1])
-        lops += pre
-        rpos = base + rdi
-        exit_on_stop = None
-        wk = woken[rdi + 1:]
-        nw = notw[rdi + 1:]
-        # woken branch ops (cond: flag read true), then the not-woken remainder must be a suffix (the wait)
-        if nw != wk[-len(nw):]:
-            raise Unsupported("block_on branches do not rejoin at the wait")
-        mid = wk[:len(wk) - len(nw)]
-        lops += _sigops(mid, cond=(lambda get, rpos=rpos: get(rpos, "val")))
-        pidx = [base + rdi + 1 + i for i, (k_, _, _) in enumerate(mid) if k_ == "poll"]
-        lops += _sigops(nw)
-        marks.append({"read": rpos, "polls": pidx, "wait": len(lops) - 1, "stopload": base})
-    loop = P.Thread("loop", lops, may_stop=True)
+    # operations of the woken iteration that the not-woken iteration does not have are conditional on
+    # the flag having been read as set (in-order multiset alignment)
+    cond_flags = []
+    j = 0
+    for op_ in woken:
+        if j < len(notw) and notw[j] == op_:
+            cond_flags.append(False)
+            j += 1
+        else:
+            cond_flags.append(True)
+    if j != len(notw):
+        raise Unsupported("block_on: the not-woken iteration is not a subsequence of the woken one")
+
+    def bo_loop():
+        lops = _sigops(facts["bo_init"])
+        marks = []
+        for it in range(iters):
+            base = len(lops)
+            rpos = base + rdi
+            conds = [(lambda get, rpos=rpos: get(rpos, "val")) if cflag else None for cflag in cond_flags]
+            lops += _sigops(woken, conds=conds)
+            marks.append({"first": base, "read": rpos, "polls": [base + i for i, (k_, _, _) in enumerate(woken) if k_ == "poll"],
+                          "wait": base + [i for i, (k_, _, _) in enumerate(woken) if k_ == "wait"][-1],
+                          "stoploads": [base + i for i, (k_, fld, _) in enumerate(woken) if k_ == "load" and fld == "stop"],
+                          "last": base + len(woken) - 1})
+        return P.Thread("loop", lops, may_stop=True), lops, marks
+
+    def exits(ex, L, lops, marks):
+        # block_on returns at the first load of stop that reads true: nothing after it is executed
+        for mk in marks:
+            for sl in mk["stoploads"]:
+                for later in range(sl + 1, len(lops)):
+                    ex.s.add(z3.Implies(z3.And(ex.executed(L, sl), ex.ret(L, sl, "active"), ex.ret(L, sl, "val")), z3.Not(ex.executed(L, later))))
+
+    loop, lops, marks = bo_loop()
     wk_ops = _sigops(facts["wake"]) + _sigops(facts["wake_by_ref"])
-    wk = P.Thread("waker", wk_ops)
-    ex = P.Execution([wk, loop], nflags=2, flag_init=[False, False])
-    wend = ex.world_at_end()
-    # the stop flag is never set in this scenario, so the loop never exits through it
+    ex = P.Execution([P.Thread("waker", wk_ops), loop], nflags=2, flag_init=[False, False])
     L = 1
+    exits(ex, L, lops, marks)
+    wend = ex.world_at_end()
     sat, m, dt = ex.check(ex.thread_done(0))
     out["queries"] += 1
     out["solver_s"] += dt
@@ -709,6 +727,26 @@ def p_sig(ctx, tier):
         if sat:
             failing.append("block_on_blocked_after_wake_without_polling")
             cex = cex or "\n".join(ex.schedule(m))
+    # stop() requested first => None: no poll in an iteration that began after the stop request
+    loop2, lops2, marks2 = bo_loop()
+    rem_ops = _sigops(facts["stop"]) + _sigops(facts["wake"])
+    ex3 = P.Execution([P.Thread("remote", rem_ops), loop2], nflags=2, flag_init=[False, False])
+    exits(ex3, 1, lops2, marks2)
+    stop_i0 = [i for i, o in enumerate(rem_ops) if o.kind == "flag_store" and o.obj == 0 and o.val]
+    if not stop_i0:
+        raise Unsupported("LoopSignal::stop does not store the stop flag")
+    ninit = len(_sigops(facts["bo_init"]))
+    after_init = ex3.position(0, stop_i0[0]) > ex3.position(1, ninit - 1) if ninit else z3.BoolVal(True)
+    for mk in marks2:
+        for pi in mk["polls"]:
+            sat, m, dt = ex3.check(after_init, ex3.executed(1, pi), ex3.ret(1, pi, "active"),
+                                   ex3.position(1, mk["first"]) > ex3.position(0, stop_i0[0]))
+            out["queries"] += 1
+            out["solver_s"] += dt
+            if sat:
+                failing.append("block_on_polls_the_future_in_an_iteration_begun_after_stop")
+                cex = cex or "\n".join(ex3.schedule(m))
+                break
     # ---------------- run + stop/wakeup
     rops = _sigops(facts["run_init"])
     ninit = len(rops)
